@@ -1,0 +1,64 @@
+//go:build verif
+
+// Contracts for reflect.go (see /verif/DESIGN.md section 7: C15, C05) against
+// the abstract reflect model of /verif/contracts/11_reflect.spec. Comment-only file.
+
+package bcl
+
+//@ group C15,C05,C06
+//
+// copyBlock stores into a settable struct value; it writes to the caller's
+// target only through reflect's Set.
+//@ func copyBlock
+//@   requires [C15] destination_is_a_settable_struct: rvalid(v) && rkind(v) == 25 && rsettable(v)
+//@   ensures [C15] fresh_destination_leaves_the_target_alone: rfresh(v) ==> g.tsets == old(g.tsets)
+//@   ensures assignments_only_grow: g.assigned >= old(g.assigned) && g.tsets >= old(g.tsets)
+//@   modifies g.tsets, g.assigned
+//@   loop 1 invariant 0 <= i && g.tsets == old(g.tsets) && g.assigned == old(g.assigned) && tagged != nil
+//@   loop 1 invariant forall k string :: has(tagged, k) ==> 0 <= tagged[k] && tagged[k] < tnumfield(t)
+//@   loop 2 invariant (rfresh(v) ==> g.tsets == old(g.tsets)) && g.assigned >= old(g.assigned) && g.tsets >= old(g.tsets) && isnew(keys)
+//@   loop 3 invariant 0 - 1 <= rangeindex && rangeindex < len(keys) && (rfresh(v) ==> g.tsets == old(g.tsets)) && g.assigned >= old(g.assigned) && g.tsets >= old(g.tsets)
+//
+// setField: the closure that maps one block key to a struct field and stores the value.
+//@ func copyBlock$1
+//@   requires [C15] destination_is_a_settable_struct: rvalid(v) && rkind(v) == 25 && rsettable(v) && t == rtype(v) && t != nil && tkind(t) == 25 && tagged != nil && filled != nil
+//@   requires tagged_indexes_in_range: forall k string :: has(tagged, k) ==> 0 <= tagged[k] && tagged[k] < tnumfield(t)
+//@   ensures [C15] fresh_destination_leaves_the_target_alone: rfresh(v) ==> g.tsets == old(g.tsets)
+//@   ensures [C15] a_plain_value_is_stored_exactly_once_or_reported: !is_block(x) ==> (result == nil ? g.assigned == old(g.assigned) + 1 : g.assigned == old(g.assigned))
+//@   ensures assignments_only_grow: g.assigned >= old(g.assigned) && g.tsets >= old(g.tsets)
+//@   modifies g.tsets, g.assigned, filled
+//@   assert [C15] stores_the_block_value_unchanged: at Set#1: $x == rvalof(x)
+//@   assert [C15] stores_only_into_exported_fields: at Set#1: f.PkgPath == ""
+//
+//@ func copyBlocks
+//@   use tassignable_reflexive
+//@   ensures [C15] no_binding_is_an_error: binding == nil ==> result != nil
+//@   ensures [C15] non_pointer_target_is_an_error: rkind(rvalof(target)) != 22 ==> result != nil
+//@   ensures [C15] slice_target_untouched_on_error: result != nil && istype(binding, SliceBinding) ==> g.tsets == old(g.tsets)
+//@   ensures [C15] slice_target_replaced_once_on_success: result == nil && istype(binding, SliceBinding) ==> g.tsets == old(g.tsets) + 1
+//@   loop 1 invariant 0 - 1 <= rangeindex && rangeindex < len(blocks) && g.tsets == old(g.tsets) && rlen(newSlice) == len(blocks) && rfresh(newSlice) && rvalid(newSlice) && rkind(newSlice) == 23 && !rro(newSlice) && tkind(telem(rtype(newSlice))) == 25
+//
+//@ func Bind
+//@   ensures [C15] no_binding_is_an_error: binding == nil ==> result != nil
+//
+//@ group C15,C05,C11
+//@ func Unmarshal
+//@   requires no_nil_option: forall i int :: 0 <= i && i < len(opts) ==> opts[i] != nil
+//@   assert [C15,C05] binds_only_after_successful_interpretation: at Bind#1: err == nil
+//@   ensures [C15] compile_error_stores_nothing: g.diags > 0 ==> g.assigned == old(g.assigned) && result != nil
+//
+//@ func UnmarshalFile
+//@   requires input_given: f != nil
+//@   requires no_nil_option: forall i int :: 0 <= i && i < len(opts) ==> opts[i] != nil
+//@   requires fresh_protocol: g.closes == 0 && g.reads == 0 && g.ev_go == 0 && g.ev_send_rerr == 0 && g.ev_send_perr == 0 && g.ev_close_inpc == 0 && g.ev_close_done == 0 && g.ev_recv_done == 0 && g.ev_send_inpc == 0 && g.ev_recv_rerr == 0 && g.ev_recv_perr == 0
+//@   assert [C15,C05] binds_only_after_successful_interpretation: at Bind#1: err == nil
+//@   assert [C11] reads_the_file_through_the_pipeline_once: at InterpretFile#1: true
+//@   ensures [C11] input_left_to_the_reader: g.closes == 0 && g.reads == 0
+//
+//@ func InterpretFile
+//@   requires input_given: f != nil
+//@   requires no_nil_option: forall i int :: 0 <= i && i < len(opts) ==> opts[i] != nil
+//@   requires fresh_protocol: g.closes == 0 && g.reads == 0 && g.ev_go == 0 && g.ev_send_rerr == 0 && g.ev_send_perr == 0 && g.ev_close_inpc == 0 && g.ev_close_done == 0 && g.ev_recv_done == 0 && g.ev_send_inpc == 0 && g.ev_recv_rerr == 0 && g.ev_recv_perr == 0
+//@   assert [C11,C03] executes_only_an_error_free_program: at Execute#1: err == nil
+//@   assert [C11] parses_the_file_through_the_pipeline_once: at ParseFile#1: true
+//@   ensures [C11] input_left_to_the_reader: g.closes == 0 && g.reads == 0
